@@ -48,4 +48,23 @@ def judgePair (a b : Identity) (ha hb : String) : String :=
   else if ha.take 8 == hb.take 8 then "fail edit_does_not_change_32bit_prefix"
   else "ok"
 
+/-- "the hash written into each language output is that same value, and it is the value senders place in the
+version field": `p` = `int(MDF.hash[:8], 16)` of the parser, `py` = `type_hash` of the generated class, `c` = the
+`HASH_<NAME>` macro, `js` / `m` = the 8-digit strings of the JavaScript / MATLAB outputs read as hex, `versions` =
+`header.version` of frames a real `Client.send_message` wrote.  `none`: no constant for the message in that output. -/
+def judgeOutputs (p : Nat) (py c js m : Option Nat) (versions : List Nat) : String :=
+  let one (lang : String) (v : Option Nat) : Option String :=
+    match v with
+    | none => some s!"fail hash_missing_in_{lang}_output"
+    | some x => if x == p then none else some s!"fail hash_differs_in_{lang}_output"
+  match one "py" py with
+  | some e => e
+  | none => match one "c" c with
+    | some e => e
+    | none => match one "js" js with
+      | some e => e
+      | none => match one "m" m with
+        | some e => e
+        | none => if versions.all (· == p) then "ok" else "fail header_version_is_not_the_hash"
+
 end Pyrtma.HashText
